@@ -290,6 +290,24 @@ def pack_alias_nested_type():
     return [common, f], []
 
 
+def pack_shadowed_top_level():
+    """A module-level message declared *before* another module-level message that nests a type of the same simple name and
+    still refers to the module-level one (field and map value); same with enums."""
+    errs, errs_e = map_field(Q('Job'), 'task_errors', 3, 'string', Q('Fault'))
+    msgs = [message('Fault', [field('code', 1, 'int32'), field('text', 2, 'string')]),
+            message('Job', [field('last_error', 1, Q('Fault')), field('own', 2, Q('Job.Fault')), errs,
+                            field('level', 4, 'enum:' + Q('Level')), field('own_level', 5, 'enum:' + Q('Job.Level')),
+                            field('errors', 6, Q('Fault'), repeated=True)],
+                    nested=[errs_e, message('Fault', [field('nested_only', 1, 'bool')])],
+                    enums=[enum('Level', 'LEVEL_UNSPECIFIED', 'INNER_HIGH')]),
+            # and the other way round: declared after its user
+            message('Task', [field('result', 1, Q('Result')), field('own', 2, Q('Task.Result'))],
+                    nested=[message('Result', [field('nested_only', 1, 'bool')])]),
+            message('Result', [field('value', 1, 'string')])]
+    f = file('acme/wire/v1/shadow.proto', P, messages=msgs, enums=[enum('Level', 'LEVEL_UNSPECIFIED', 'OUTER_LOW', 'OUTER_HIGH')])
+    return [f], []
+
+
 def pack_subpackages_only():
     """Every target file lives in a proto sub-package of the API (the googleads layout); classes keep their own full names."""
     e = file('acme/wire/v1/enums/kinds.proto', P + '.enums', enums=[enum('Kind', 'KIND_UNSPECIFIED', 'BIG', 'SMALL')])
@@ -335,6 +353,7 @@ def make_jobs(ctx, only=None):
     add('nested-module-names', *pack_nested_module_names())
     add('alias-nested-type', *pack_alias_nested_type())
     add('subpackages-only', *pack_subpackages_only())
+    add('shadowed-top-level', *pack_shadowed_top_level())
     add('negative-enum', *negative_enum_pack())
     add('keyword-enum-values', *keyword_enum_values_pack())
     files, deps, mods, cells = pack_refs(4)
